@@ -112,7 +112,14 @@ def check(prog: Program, rep):
     coefficients_converted(prog, rep, "C08.R8", ["kMinPathError", "kMinPathErrorCycles", "AbstractPathModelDAG"])
     for cname in ("kMinPathError", "kMinPathErrorCycles"):
         m = prog.own_method(cname, "is_valid_solution")
-        cmp_ = [c for c in ast.walk(m.node) if isinstance(c, ast.Compare) and "abs(" in norm(c.left) and "flow_attr" in norm(c.left)]
+        from rules.common import all_local_defs as _ald, substitute_locals as _sl
+        _defs = _ald(m.node)
+        cmp_ = []
+        for c in ast.walk(m.node):
+            if isinstance(c, ast.Compare):
+                left = _sl(c.left, _defs)        # the deviation may be computed into a local first
+                if "abs(" in norm(left) and "flow_attr" in norm(left):
+                    cmp_.append(ast.Compare(left=left, ops=c.ops, comparators=c.comparators, lineno=c.lineno, col_offset=c.col_offset))
         key = f"{cname}.is_valid_solution:scaled-error"
         if not cmp_:
             raise AnalysisError(f"{cname}.is_valid_solution: the comparison of |flow - load| with the slacks was not found")
